@@ -1391,7 +1391,7 @@ def self_records(rng, geo, nrows, gc_rows_per_batch):
                     d, ins = cap_self_eval(e['cmhalves'] / 2.0, rel, conv, ra, dec)
                     nan = np.isnan(d)
                     disc = max([ndeg(x - e['dist10'] / 10.0) for x in d[~nan]] or [0])
-                    recs.append({'kind': 'self', 'fn': 'cap_distance', 'conv': conv, 'rel': rel, 'n': len(ra), 'nnan': int(nan.sum()),
+                    recs.append({'kind': 'self', 'fn': 'cap_distance', 'conv': conv, 'rel': rel, 'scale': 0, 'n': len(ra), 'nnan': int(nan.sum()),
                                  'disc': disc, 'wrong': int((ins != e['inside']).sum())})
                     k = int(np.argmax(nan)) if nan.any() else int(np.argmax(np.abs(d - e['dist10'] / 10.0)))
                     info.append({'probe': 'self-cap', 'theta10': t, 'sgn': sg, 'conv': conv, 'rel': rel, 'ra': ra.tolist(),
@@ -1415,10 +1415,117 @@ def self_records(rng, geo, nrows, gc_rows_per_batch):
                 nan = np.isnan(gd)
                 dv = np.abs(gd - sep[rel])
                 worst = int(np.argmax(nan)) if nan.any() else int(np.argmax(dv))
-                recs.append({'kind': 'self', 'fn': 'gcirc', 'conv': 'u%d' % u, 'rel': rel, 'n': len(ra), 'nnan': int(nan.sum()),
+                recs.append({'kind': 'self', 'fn': 'gcirc', 'conv': 'u%d' % u, 'rel': rel, 'scale': 0, 'n': len(ra), 'nnan': int(nan.sum()),
                              'disc': ndeg(np.max(dv[~nan])) if (~nan).any() else 0, 'wrong': 0})
                 info.append({'probe': 'self-gcirc', 'units': u, 'rel': rel, 'rows': [int(js[0]), int(js[-1])],
                              'worst': [float(a[0][worst]), float(a[1][worst]), float(a[2][worst]), float(a[3][worst]), float(g[worst])]})
+    return recs, info
+
+
+NEAR_SCALES = [1, 100, 1000, 10000, 100000, 1000000]       # units of 1e-12 deg (SkyGeom.tla NearScales)
+
+
+def near_partner(nrng, ra, dec, rel, scale, direction):
+    """the same points / their exact antipodes with uniform offsets of at most scale * 1e-12 deg in RA, Dec or both"""
+    n = len(ra)
+    s = scale * 1e-12
+    dra = nrng.uniform(-s, s, n) if direction in ('ra', 'both') else 0.0
+    ddec = nrng.uniform(-s, s, n) if direction in ('dec', 'both') else 0.0
+    if rel == 'near-coincident':
+        return ra + dra, np.clip(dec + ddec, -90.0, 90.0)
+    return (ra + 180.0) % 360.0 + dra, np.clip(-dec + ddec, -90.0, 90.0)
+
+
+def near_centres(nrng, n):
+    """half on the quarter-degree grid, half anywhere on the sphere"""
+    h = n // 2
+    ra = np.concatenate([nrng.integers(0, 1440, h) / 4.0, nrng.uniform(0.0, 360.0, n - h)])
+    dec = np.concatenate([nrng.integers(0, 721, h) / 4.0 - 90.0, np.degrees(np.arcsin(nrng.uniform(-1.0, 1.0, n - h)))])
+    return ra, dec
+
+
+def near_gcirc_probe(seed, units, rel, scale, direction, n):
+    """one batch of n nearly coincident / nearly antipodal pairs through gcirc; reproducible from its arguments"""
+    nrng = np.random.default_rng([seed, units, NEAR_SCALES.index(scale), ['ra', 'dec', 'both'].index(direction), rel == 'near-antipode'])
+    ra, dec = near_centres(nrng, n)
+    ra2, dec2 = near_partner(nrng, ra, dec, rel, scale, direction)
+    if units == 2:
+        a = (ra, dec, ra2, dec2)
+    elif units == 1:
+        a = (ra / 15.0, dec, ra2 / 15.0, dec2)
+    else:
+        a = tuple(np.deg2rad(v) for v in (ra, dec, ra2, dec2))
+    g = np.asarray(call_gcirc(a[0], a[1], a[2], a[3], units), dtype=float)
+    gd = g * (float(R2D) if units == 0 else 1 / 3600.0)
+    nan = np.isnan(gd)
+    want = 0.0 if rel == 'near-coincident' else 180.0
+    half = float(HALF_OUT[units])
+    out = ~nan & ((g < 0) | (g > half * (1 + 1e-9)))
+    dv = np.abs(gd - want)
+    rec = {'kind': 'self', 'fn': 'gcirc', 'conv': 'u%d' % units, 'rel': rel, 'scale': scale, 'n': n, 'nnan': int(nan.sum()),
+           'disc': ndeg(np.max(dv[~nan])) if (~nan).any() else 0, 'wrong': int(out.sum())}
+    k = int(np.argmax(nan)) if nan.any() else int(np.argmax(out)) if out.any() else int(np.argmax(dv))
+    return rec, [float(v[k]) for v in a] + [float(g[k])]
+
+
+def near_cap_probe(seed, block, conv, rel, scale, cases, ncentres, npart):
+    """ncentres caps (theta / sign rotating), each asked for npart * 3 partners near its centre / its antipode"""
+    from pydl.pydlutils.mangle import cap_distance, is_in_cap
+    nrng = np.random.default_rng([seed, block, conv == 'vector', NEAR_SCALES.index(scale), rel == 'near-antipode'])
+    ra, dec = near_centres(nrng, ncentres)
+    xs = a2x(np.stack([ra, dec], 1), True)
+    combos = sorted({(t, sg) for (t, _, sg, _) in cases})
+    base = 'coincident' if rel == 'near-coincident' else 'antipode'
+    nnan = wrong = n = 0
+    disc = 0.0
+    worst = None
+    with np.errstate(all='ignore'):
+        for j in range(ncentres):
+            t, sg = combos[(block + j) % len(combos)]
+            e = cases[(t, base, sg, conv)]
+            pr, pd = [], []
+            for direction in ('ra', 'dec', 'both'):
+                a, b = near_partner(nrng, np.full(npart, ra[j]), np.full(npart, dec[j]), rel, scale, direction)
+                pr.append(a)
+                pd.append(b)
+            ang = np.stack([np.concatenate(pr), np.concatenate(pd)], 1)
+            pts = ang if conv == 'radec' else a2x(ang, True)
+            cm = e['cmhalves'] / 2.0
+            d = cap_distance(xs[j], cm, pts)
+            ins = is_in_cap(xs[j], cm, pts)
+            nan = np.isnan(d)
+            n += len(d)
+            nnan += int(nan.sum())
+            wrong += int((np.asarray(ins, dtype=bool) != e['inside']).sum())
+            if (~nan).any():
+                disc = max(disc, float(np.max(np.abs(d[~nan] - e['dist10'] / 10.0))))
+            if nan.any() and worst is None:
+                k = int(np.argmax(nan))
+                worst = {'centre': [float(ra[j]), float(dec[j])], 'cm': cm, 'point_radec': [float(ang[k, 0]), float(ang[k, 1])]}
+    rec = {'kind': 'self', 'fn': 'cap_distance', 'conv': conv, 'rel': rel, 'scale': scale, 'n': n, 'nnan': nnan, 'disc': ndeg(disc),
+           'wrong': wrong}
+    return rec, worst
+
+
+def near_records(seed, cases, gc_n, cap_blocks, quick):
+    recs, info = [], []
+    for units in UNITS:
+        for rel in ('near-coincident', 'near-antipode'):
+            for scale in NEAR_SCALES:
+                for direction in ('ra', 'dec', 'both'):
+                    n = gc_n if rel == 'near-antipode' else gc_n // 2
+                    rec, worst = near_gcirc_probe(seed, units, rel, scale, direction, n)
+                    recs.append(rec)
+                    info.append({'probe': 'near-gcirc', 'seed': seed, 'units': units, 'rel': rel, 'scale': scale, 'dir': direction, 'n': n,
+                                 'worst_call': worst})
+    for block in range(cap_blocks):
+        for conv in ('radec', 'vector'):
+            for rel in ('near-coincident', 'near-antipode'):
+                for scale in NEAR_SCALES:
+                    rec, worst = near_cap_probe(seed, block, conv, rel, scale, cases, 8 if quick else 12, 130 if quick else 100)
+                    recs.append(rec)
+                    info.append({'probe': 'near-cap', 'seed': seed, 'block': block, 'conv': conv, 'rel': rel, 'scale': scale,
+                                 'quick': quick, 'worst': worst or {}})
     return recs, info
 
 
@@ -1514,6 +1621,8 @@ def run(ctx):
     mrecs, minfo = mrecs + frecs, minfo + finfo
     selfrecs, selfinfo = self_records(rng, geo, 10 if ctx.quick else 100, 8 if ctx.quick else 1)
     mrecs, minfo = mrecs + selfrecs, minfo + selfinfo
+    nrecs, ninfo = near_records(ctx.seed, geo['capself'], 100000 if ctx.quick else 1000000, 10 if ctx.quick else 100, ctx.quick)
+    mrecs, minfo = mrecs + nrecs, minfo + ninfo
     recs = grecs + srecs + mrecs + vrecs
     verdict = judge(ctx, recs, 10 if ctx.quick else 100, ctx.tier)
     ok0, why0, _, _ = verdict[0]
@@ -1630,6 +1739,18 @@ def _reprobe(inf, old):
         return last
     if k == 'form':
         return form_probe(dict(inf))
+    if k == 'near-gcirc':
+        return near_gcirc_probe(inf['seed'], inf['units'], inf['rel'], inf['scale'], inf['dir'], inf['n'])[0]
+    if k == 'near-cap':
+        cases = {}
+        for t, h in ((600, 1), (900, 2), (1200, 3)):
+            for sg in (-1, 1):
+                for cv in ('radec', 'vector'):
+                    for base, sep in (('coincident', 0), ('antipode', 1800)):
+                        d10 = sg * (t - sep)
+                        cases[(t, base, sg, cv)] = {'cmhalves': sg * h, 'dist10': d10, 'inside': d10 >= 0}
+        return near_cap_probe(inf['seed'], inf['block'], inf['conv'], inf['rel'], inf['scale'], cases,
+                              8 if inf['quick'] else 12, 130 if inf['quick'] else 100)[0]
     if k == 'self-cap':
         from fractions import Fraction as F
         cm = inf['sgn'] * {600: 1, 900: 2, 1200: 3}[inf['theta10']] / 2.0
